@@ -312,12 +312,14 @@ def events_stream(rng: random.Random, n: int, project=lambda x: x, stream="strea
         srcs = [(f"u{k}.feature", gens.structured(rng) if rng.random() < 0.6 else gens.noisy(rng))
                 for k in range(rng.randrange(1, 4))]
         srcs = [(u, d) for u, d in srcs if not impl.is_existing_path(d)]
-        cs.append((opts, srcs))
-        reqs.append(driver.request("stream", [int(o) for o in opts], *[x for p in srcs for x in p]))
+        stop = rng.random() < 0.25      # the stream's parser switched to stop-at-first-error (Model: streamAllMode)
+        cs.append((opts, srcs, stop))
+        reqs.append(driver.request("stream", [int(o) for o in opts] + [int(stop)], *[x for p in srcs for x in p]))
     outs = driver.batch(reqs)
-    for (opts, srcs), m in zip(cs, outs):
-        i = impl.stream(opts, srcs)
-        case = {"options": opts, "sources": srcs}
+    for (opts, srcs, stop), m in zip(cs, outs):
+        i = impl.stream(opts, srcs, stop=stop)
+        case = {"options": opts, "sources": srcs, "stop": stop}
+        res.stats["stop_mode_streams"] += int(stop)
         res.note(case, any(len(e) > 0 for e in i))
         res.stats["envelopes"] += sum(len(e) for e in i)
         pi, pm = project(i), project(m)
